@@ -13,6 +13,7 @@ import Mfi.Lemmas.SkelL
 import Mfi.Props.C15
 import Mfi.Lemmas.WorldL
 import Mfi.Lemmas.WorldSolvH
+import Mfi.Lemmas.WorldTxL
 
 namespace Mfi.Props.C14
 open Mfi.Gate Mfi.Gen
@@ -212,12 +213,12 @@ theorem paused_checks (env : Env) (S : Gen.Acc.S) (rest : List (Gen.Acc.Chk × N
     collection, by anybody, with any arguments — changes any margin account or moves a token of any liquidity vault; the only
     instruction that still runs, the accrual crank, touches no account and moves no token (it brings a bank's books up to date). -/
 theorem world_paused_machine_is_frozen (w : WState) (hp : w.g.paused = true) (op : WOp) :
-    (w.step op).accts = w.accts ∧ ∀ e ∈ (w.stepE op).2, e.inflow = 0 := by
+    (w.step op).accts = w.accts ∧ (w.step op).g = w.g ∧ ∀ e ∈ (w.stepE op).2, e.inflow = 0 := by
   have hgrp : ∀ (a : AcctV) (b : WBank) (s v : Nat) (va : Int), ∃ k ad, (w.ctx a b s v va).env .f_group = some (.group k ad true) := by
     intro a b s v va
     exact ⟨w.g.key, w.g.admin, by simp [Ctx.env, WState.ctx, hp]⟩
   cases op with
-  | tick dt => exact ⟨rfl, by simp [WState.stepE]⟩
+  | tick dt => exact ⟨rfl, rfl, by simp [WState.stepE]⟩
   | accrue bi =>
     simp only [WState.step, WState.stepE]
     cases hb : w.banks[bi]? with
@@ -329,18 +330,128 @@ theorem world_paused_machine_is_frozen (w : WState) (hp : w.g.paused = true) (op
                 rw [paused_checks _ .LendingAccountLiquidate _ rfl ⟨w.g.key, w.g.admin, by simp [LiqCtx.env, WState.liqCtx, hp]⟩]; rfl
               simp [this]
   | transfer ai signer newKey newAuth ok =>
-    refine ⟨?_, by simp [WState.stepE]⟩
-    simp only [WState.step]
+    have hst : w.step (.transfer ai signer newKey newAuth ok) = w := by
+      simp only [WState.step]
+      split
+      · rfl
+      · cases ha : w.accts[ai]? with
+        | none => rfl
+        | some a =>
+          have : transferIx w.g a signer newKey newAuth ok = .error (.err E.ProtocolPaused) := by
+            unfold transferIx Transfer.transfer
+            simp [hp, Transfer.err]
+            rfl
+          simp [this]
+    refine ⟨by rw [hst], by rw [hst], by simp [WState.stepE]⟩
+
+/-! ### … and over transactions: while the pause is in force no transaction changes a position or a group setting -/
+
+theorem map_slots_set {l : List AcctV} {i : Nat} {a a' : AcctV} (ha : l[i]? = some a) (hs : a'.slots = a.slots) :
+    (l.set i a').map (·.slots) = l.map (·.slots) := by
+  apply List.ext_getElem?
+  intro k
+  simp only [List.getElem?_map, List.getElem?_set]
+  split
+  · rename_i hik
+    subst hik
     split
-    · rfl
-    · cases ha : w.accts[ai]? with
-      | none => rfl
-      | some a =>
-        have : transferIx w.g a signer newKey newAuth ok = .error (.err E.ProtocolPaused) := by
-          unfold transferIx Transfer.transfer
-          simp [hp, Transfer.err]
-          rfl
-        simp [this]
+    · rw [ha]; simp [hs]
+    · rename_i hlt
+      rw [List.getElem?_eq_none (by omega)]
+  · rfl
+
+/-- one accepted instruction of a transaction under the pause: positions and group untouched -/
+theorem paused_stepIn {tx : List TOp} {i : Nat} {t : TOp} {w w' : WState} (hp : w.g.paused = true)
+    (h : w.stepIn tx i t = some w') : w'.accts.map (·.slots) = w.accts.map (·.slots) ∧ w'.g = w.g := by
+  cases t with
+  | ix op =>
+    simp only [WState.stepIn] at h
+    rw [step?_some h]
+    obtain ⟨h1, h2, _⟩ := world_paused_machine_is_frozen w hp op
+    exact ⟨by rw [h1], h2⟩
+  | startFlash ai signer endIdx =>
+    simp only [WState.stepIn] at h
+    split at h
+    · rename_i a ha
+      split at h
+      · injection h with h; subst h; exact ⟨map_slots_set ha rfl, rfl⟩
+      · cases h
+    · cases h
+  | endFlash ai signer =>
+    simp only [WState.stepIn] at h
+    split at h
+    · rename_i a ha
+      split at h
+      · injection h with h; subst h; exact ⟨map_slots_set ha rfl, rfl⟩
+      · cases h
+    · cases h
+  | startLiq ai receiver recordOk =>
+    simp only [WState.stepIn] at h
+    split at h
+    · rename_i a ha
+      split at h
+      · injection h with h; subst h; exact ⟨map_slots_set ha rfl, rfl⟩
+      · cases h
+    · cases h
+  | endLiq ai signer recordOk walletOk feeMax =>
+    simp only [WState.stepIn] at h
+    split at h
+    · rename_i a ha
+      split at h
+      · injection h with h; subst h; exact ⟨map_slots_set ha rfl, rfl⟩
+      · cases h
+    · cases h
+  | startDelev ai signer recordOk =>
+    simp only [WState.stepIn] at h
+    split at h
+    · rename_i a ha
+      split at h
+      · injection h with h; subst h; exact ⟨map_slots_set ha rfl, rfl⟩
+      · cases h
+    · cases h
+  | endDelev ai signer recordOk =>
+    simp only [WState.stepIn] at h
+    split at h
+    · rename_i a ha
+      split at h
+      · injection h with h; subst h; exact ⟨map_slots_set ha rfl, rfl⟩
+      · cases h
+    · cases h
+
+theorem paused_runFrom (tx : List TOp) : ∀ (rest : List TOp) (i : Nat) (w w' : WState), w.g.paused = true →
+    WState.runFrom tx i rest w = some w' → w'.accts.map (·.slots) = w.accts.map (·.slots) ∧ w'.g = w.g := by
+  intro rest
+  induction rest with
+  | nil => intro i w w' _ h; simp only [WState.runFrom] at h; injection h with h; subst h; exact ⟨rfl, rfl⟩
+  | cons op rest ih =>
+    intro i w w' hp h
+    simp only [WState.runFrom] at h
+    split at h
+    · rename_i w1 h1
+      obtain ⟨a1, g1⟩ := paused_stepIn hp h1
+      obtain ⟨a2, g2⟩ := ih (i + 1) w1 w' (by rw [g1]; exact hp) h
+      exact ⟨by rw [a2, a1], by rw [g2, g1]⟩
+    · cases h
+
+/-- **world_paused_transactions_move_no_position**: while the protocol-wide pause is in force for the group, NO sequence of
+    transactions of the world machine — whatever they contain: user instructions, liquidations, settlements, flash-loan and
+    receivership brackets, by anybody — changes a single position of any margin account or any group setting (the pause itself
+    included: it stays in force until the fee admin's instructions or the clock end it) -/
+theorem world_paused_transactions_move_no_position : ∀ (txs : List (List TOp)) (w : WState), w.g.paused = true →
+    (w.runTxs txs).accts.map (·.slots) = w.accts.map (·.slots) ∧ (w.runTxs txs).g = w.g := by
+  intro txs
+  induction txs with
+  | nil => intro w _; exact ⟨rfl, rfl⟩
+  | cons tx rest ih =>
+    intro w hp
+    simp only [WState.runTxs]
+    cases hr : w.runTx tx with
+    | none => simpa using ih w hp
+    | some w1 =>
+      obtain ⟨a1, g1⟩ := paused_runFrom tx tx 0 w w1 hp hr
+      obtain ⟨a2, g2⟩ := ih w1 (by rw [g1]; exact hp)
+      simp only [Option.getD_some]
+      exact ⟨by rw [a2, a1], by rw [g2, g1]⟩
 
 /-- **world_killed_is_forever**: over every history of the world state machine a bank in the KilledByBankruptcy state stays in it
     (no instruction of the machine resets an operational state: `step_bank_frame`), so the refusals of a killed bank
